@@ -1,7 +1,6 @@
 /-
   Helper lemmas for C18 (split_seconds / join_seconds).
 -/
-import Cctz.Model.Tz
 import Cctz.Model.Split
 import Cctz.Proofs.IntLemmas
 
